@@ -11,6 +11,7 @@
  *        either a plane sample at the expected place or an untouched canary.
  *   errs fn w a h s     unified function fn (0 CompressFromYUV8, 1 EncodeYUV8, 3 DecodeYUV8) with
  *        out-of-range geometry: must fail cleanly (prints rc).
+ *   seq seed a n (w h s q sfi hdr) x n   legacy (TurboJPEG 2.x) entry points on reused handles, see do_seq
  *   cmp seed w h s q sfi a pf ex0 ex1 ex2 flags [fam script]
  *        composition clauses on a random JPEG (see do_compose).  Without fam: source = tj3Compress8 output.
  *        With fam/script: source built through the libjpeg API with the sampling factors FAM[fam] (standard,
@@ -547,6 +548,165 @@ static void do_errs(char *p)
 }
 
 
+/* ---------------------------------------------------------------- seq: TurboJPEG 2.x entry points in multi-image sequences
+ * seq seed a n  (w h s q sfi hdr) x n
+ * One legacy decompressor and one legacy compressor (tjInitDecompress / tjInitCompress) are reused for the images
+ * 1..n, whose subsampling and dimensions change (A, B, A', ...).  For every image each legacy unified-buffer /
+ * per-plane call must give the result of the tj3 function on a FRESH instance, i.e. the documented layout of the
+ * CURRENT image.  hdr: 0 no header call on the reused handle, 1 tjDecompressHeader3 first, 2 tj3DecompressHeader first. */
+typedef struct { int nc, pw[3], ph[3], ust[3], uoff[3]; size_t usz; } geom;
+static int geom_of(int w, int a, int h, int s, geom *g)
+{
+  int i;
+  g->nc = s == TJSAMP_GRAY ? 1 : 3; g->usz = tj3YUVBufSize(w, a, h, s);
+  for (i = 0; i < 3; i++) { g->pw[i] = tj3YUVPlaneWidth(i, w, s); g->ph[i] = tj3YUVPlaneHeight(i, h, s); g->ust[i] = i < g->nc ? PADV(g->pw[i], a) : 0; }
+  g->uoff[0] = 0; g->uoff[1] = g->ust[0] * g->ph[0]; g->uoff[2] = g->uoff[1] + g->ust[1] * g->ph[1];
+  return g->usz != 0;
+}
+/* unified buffer B (canary-filled before the call) must hold exactly the planes of reference R (same geometry g) */
+static int same_unified(cbuf *B, const unsigned char *R, geom *g, char *why, size_t wn, const char *what)
+{
+  int i, r, c; size_t k; static unsigned char *mark; 
+  if (!cb_guards_ok(B)) { snprintf(why, wn, "%s wrote outside the buffer of tjBufSizeYUV2 bytes", what); return 0; }
+  mark = (unsigned char *)calloc(g->usz + 1, 1);
+  for (i = 0; i < g->nc; i++) for (r = 0; r < g->ph[i]; r++) for (c = 0; c < g->pw[i]; c++) {
+    size_t off = (size_t)g->uoff[i] + (size_t)r * g->ust[i] + c;
+    mark[off] = 1;
+    if (B->p[off] != R[off]) { snprintf(why, wn, "%s: plane %d row %d col %d is %d, fresh tj3 instance gives %d", what, i, r, c, B->p[off], R[off]); free(mark); return 0; }
+  }
+  for (k = 0; k < g->usz; k++) if (!mark[k] && !cb_untouched(B, k)) { snprintf(why, wn, "%s wrote byte %zu outside every plane of the current image", what, k); free(mark); return 0; }
+  free(mark);
+  return 1;
+}
+static int same_planes(cbuf *P, int *pst, const unsigned char *R, geom *g, char *why, size_t wn, const char *what)
+{
+  int i, r, c;
+  for (i = 0; i < g->nc; i++) {
+    if (!cb_guards_ok(&P[i])) { snprintf(why, wn, "%s wrote outside plane %d", what, i); return 0; }
+    for (r = 0; r < g->ph[i]; r++) {
+      for (c = 0; c < g->pw[i]; c++)
+        if (P[i].p[(size_t)r * pst[i] + c] != R[(size_t)g->uoff[i] + (size_t)r * g->ust[i] + c]) {
+          snprintf(why, wn, "%s: plane %d row %d col %d is %d, fresh tj3 instance gives %d", what, i, r, c, P[i].p[(size_t)r * pst[i] + c], R[(size_t)g->uoff[i] + (size_t)r * g->ust[i] + c]); return 0;
+        }
+      for (c = g->pw[i]; c < pst[i] && r < g->ph[i] - 1; c++)
+        if (!cb_untouched(&P[i], (size_t)r * pst[i] + c)) { snprintf(why, wn, "%s wrote stride padding of plane %d row %d", what, i, r); return 0; }
+    }
+  }
+  return 1;
+}
+
+static void do_seq(char *p)
+{
+  unsigned long long seed; int a, n, k, used = 0, nsf = 0; tjscalingfactor *sfs = tj3GetScalingFactors(&nsf);
+  tjhandle hD = tjInitDecompress(), hC = tjInitCompress(); char why[400] = ""; int failed = 0; char trace[256] = "";
+  if (sscanf(p, "%llu %d %d%n", &seed, &a, &n, &used) != 3 || n < 1 || n > 6) { printf("seq badline\n"); goto out; }
+  p += used; rs = seed;
+  for (k = 0; k < n && !failed; k++) {
+    int w, h, s, q, sfi, hdr, i, sw, sh, dw, dh, ci, pf, pitch, order[4], fl, ex[3], pst[3], strides[3];
+    unsigned char *rgb = NULL, *jpg = NULL, *jb1 = NULL, *jb2 = NULL, *planes[3]; const unsigned char *cplanes[3]; size_t jsz = 0, n2 = 0; unsigned long n1 = 0;
+    tjhandle fc = NULL, fd = NULL; geom g, g4, ge; cbuf RU = { 0 }, RU4 = { 0 }, L = { 0 }, P[3] = { { 0 }, { 0 }, { 0 } }, RE = { 0 }, D1 = { 0 }, D2 = { 0 };
+    if (sscanf(p, "%d %d %d %d %d %d%n", &w, &h, &s, &q, &sfi, &hdr, &used) != 6 || sfi < 0 || sfi >= nsf) { printf("seq badline\n"); goto out; }
+    p += used;
+    snprintf(trace + strlen(trace), sizeof(trace) - strlen(trace), " [%dx%d s%d hdr%d]", w, h, s, hdr);
+#define SFAIL(...) do { failed = 1; snprintf(why, sizeof(why), __VA_ARGS__); goto next; } while (0)
+    rgb = (unsigned char *)malloc((size_t)w * h * 3); gen_image(rgb, w, h, 3, w * 3, (int)(rnd() % 3));
+    fc = tj3Init(TJINIT_COMPRESS); fd = tj3Init(TJINIT_DECOMPRESS);
+    tj3Set(fc, TJPARAM_SUBSAMP, s); tj3Set(fc, TJPARAM_QUALITY, q); tj3Set(fc, TJPARAM_FASTDCT, q < 96);
+    if (tj3Compress8(fc, rgb, w, 0, h, TJPF_RGB, &jpg, &jsz) < 0) SFAIL("setup: tj3Compress8 failed");
+    /* the factor the 2.x functions choose for the requested size: first of the table that fits */
+    dw = TJSCALED(w, sfs[sfi]); dh = TJSCALED(h, sfs[sfi]);
+    for (ci = 0; ci < nsf; ci++) if (TJSCALED(w, sfs[ci]) <= dw && TJSCALED(h, sfs[ci]) <= dh) break;
+    sw = TJSCALED(w, sfs[ci]); sh = TJSCALED(h, sfs[ci]);
+    fl = (rnd() & 1) ? TJFLAG_FASTDCT : 0;
+    if (!geom_of(sw, a, sh, s, &g) || !geom_of(w, 4, h, s, &g4) || !geom_of(w, a, h, s, &ge)) SFAIL("setup: size functions returned 0");
+    /* legacy size functions == tj3 size functions */
+    if (tjBufSizeYUV2(sw, a, sh, s) != (unsigned long)g.usz) SFAIL("tjBufSizeYUV2 != tj3YUVBufSize");
+    for (i = 0; i < g.nc; i++) {
+      if (tjPlaneWidth(i, sw, s) != g.pw[i] || tjPlaneHeight(i, sh, s) != g.ph[i]) SFAIL("tjPlaneWidth/Height != tj3YUVPlaneWidth/Height (plane %d)", i);
+      ex[i] = (int)(rnd() % 4) == 0 ? -1 : (int)(rnd() % 20);
+      pst[i] = ex[i] < 0 ? g.pw[i] : g.pw[i] + ex[i]; strides[i] = ex[i] < 0 ? 0 : pst[i];
+      if (tjPlaneSizeYUV(i, sw, strides[i], sh, s) != (unsigned long)tj3YUVPlaneSize(i, sw, strides[i], sh, s)) SFAIL("tjPlaneSizeYUV != tj3YUVPlaneSize (plane %d)", i);
+    }
+    for (i = g.nc; i < 3; i++) { pst[i] = strides[i] = 0; }
+    /* references from fresh tj3 instances */
+    RU = cb_new(g.usz); RU4 = cb_new(g4.usz);
+    tj3SetScalingFactor(fd, sfs[ci]); tj3Set(fd, TJPARAM_FASTDCT, !!fl);
+    if (tj3DecompressToYUV8(fd, jpg, jsz, RU.p, a) < 0) SFAIL("setup: reference tj3DecompressToYUV8 failed: %s", tj3GetErrorStr(fd));
+    tj3SetScalingFactor(fd, TJUNSCALED); tj3Set(fd, TJPARAM_FASTDCT, 0);   /* tjDecompressToYUV is called without TJFLAG_FASTDCT */
+    if (tj3DecompressToYUV8(fd, jpg, jsz, RU4.p, 4) < 0) SFAIL("setup: reference tj3DecompressToYUV8 (1/1, align 4) failed");
+    /* the reused legacy decompressor */
+    if (hdr == 1) { int hw, hh, hs, hcs; if (tjDecompressHeader3(hD, jpg, (unsigned long)jsz, &hw, &hh, &hs, &hcs) < 0 || hw != w || hh != h || hs != s) SFAIL("tjDecompressHeader3 reports %dx%d level %d", hw, hh, hs); }
+    else if (hdr == 2) { if (tj3DecompressHeader(hD, jpg, jsz) < 0) SFAIL("tj3DecompressHeader on the reused handle failed"); }
+    for (i = 0; i < 4; i++) order[i] = i;
+    for (i = 3; i > 0; i--) { int j = (int)(rnd() % (i + 1)), t = order[i]; order[i] = order[j]; order[j] = t; }
+    for (i = 0; i < 4 && !failed; i++) {
+      switch (order[i]) {
+      case 0:
+        L = cb_new(g.usz);
+        if (tjDecompressToYUV2(hD, jpg, (unsigned long)jsz, L.p, dw, a, dh, fl) < 0) SFAIL("tjDecompressToYUV2 failed: %s", tjGetErrorStr2(hD));
+        if (!same_unified(&L, RU.p, &g, why, sizeof(why), "tjDecompressToYUV2")) { failed = 1; goto next; }
+        cb_free(&L); break;
+      case 1: {
+        int j;
+        for (j = 0; j < 3; j++) { P[j] = cb_new(j < g.nc ? (size_t)pst[j] * (g.ph[j] - 1) + g.pw[j] : 1); planes[j] = j < g.nc ? P[j].p : NULL; }
+        if (tjDecompressToYUVPlanes(hD, jpg, (unsigned long)jsz, planes, dw, strides, dh, fl) < 0) SFAIL("tjDecompressToYUVPlanes failed: %s", tjGetErrorStr2(hD));
+        if (!same_planes(P, pst, RU.p, &g, why, sizeof(why), "tjDecompressToYUVPlanes")) { failed = 1; goto next; }
+        for (j = 0; j < 3; j++) cb_free(&P[j]);
+        break; }
+      case 2:
+        L = cb_new(g4.usz);
+        if (tjDecompressToYUV(hD, jpg, (unsigned long)jsz, L.p, 0) < 0) SFAIL("tjDecompressToYUV failed: %s", tjGetErrorStr2(hD));
+        if (!same_unified(&L, RU4.p, &g4, why, sizeof(why), "tjDecompressToYUV")) { failed = 1; goto next; }
+        cb_free(&L); break;
+      case 3:
+        L = cb_new(g4.usz);
+        if (tjDecompress(hD, jpg, (unsigned long)jsz, L.p, 0, 0, 0, 3, TJ_YUV) < 0) SFAIL("tjDecompress(TJ_YUV) failed: %s", tjGetErrorStr2(hD));
+        if (!same_unified(&L, RU4.p, &g4, why, sizeof(why), "tjDecompress(TJ_YUV)")) { failed = 1; goto next; }
+        cb_free(&L); break;
+      }
+    }
+    /* decode the planes: legacy on the reused handle vs tj3 on a fresh one */
+    pf = (int)(rnd() % 11); pitch = sw * tjPixelSize[pf] + (int)(rnd() % 3) * 4;
+    D1 = cb_new((size_t)pitch * sh); D2 = cb_new((size_t)pitch * sh);
+    tj3Set(fd, TJPARAM_SUBSAMP, s);
+    if (tj3DecodeYUV8(fd, RU.p, a, D2.p, sw, pitch, sh, pf) < 0) SFAIL("setup: reference tj3DecodeYUV8 failed");
+    if (tjDecodeYUV(hD, RU.p, a, s, D1.p, sw, pitch, sh, pf, 0) < 0) SFAIL("tjDecodeYUV failed: %s", tjGetErrorStr2(hD));
+    if (!cb_guards_ok(&D1) || memcmp(D1.p, D2.p, (size_t)pitch * (sh - 1) + (size_t)sw * tjPixelSize[pf])) SFAIL("tjDecodeYUV != tj3DecodeYUV8 of a fresh instance");
+    cb_free(&D1); D1 = cb_new((size_t)pitch * sh);
+    for (i = 0; i < 3; i++) cplanes[i] = i < g.nc ? RU.p + g.uoff[i] : NULL;
+    if (tjDecodeYUVPlanes(hD, cplanes, g.ust, s, D1.p, sw, pitch, sh, pf, 0) < 0) SFAIL("tjDecodeYUVPlanes failed: %s", tjGetErrorStr2(hD));
+    if (!cb_guards_ok(&D1) || memcmp(D1.p, D2.p, (size_t)pitch * (sh - 1) + (size_t)sw * tjPixelSize[pf])) SFAIL("tjDecodeYUVPlanes != tj3DecodeYUV8 of a fresh instance");
+    /* the reused legacy compressor */
+    RE = cb_new(ge.usz);
+    if (tj3EncodeYUV8(fc, rgb, w, 0, h, TJPF_RGB, RE.p, a) < 0) SFAIL("setup: reference tj3EncodeYUV8 failed");
+    L = cb_new(ge.usz);
+    if (tjEncodeYUV3(hC, rgb, w, 0, h, TJPF_RGB, L.p, a, s, 0) < 0) SFAIL("tjEncodeYUV3 failed: %s", tjGetErrorStr2(hC));
+    if (!same_unified(&L, RE.p, &ge, why, sizeof(why), "tjEncodeYUV3")) { failed = 1; goto next; }
+    cb_free(&L);
+    { int j, est[3], estr[3];
+      for (j = 0; j < 3; j++) { est[j] = j < ge.nc ? ge.pw[j] + (ex[j] < 0 ? 0 : ex[j]) : 0; estr[j] = j < ge.nc ? (ex[j] < 0 ? 0 : est[j]) : 0;
+        P[j] = cb_new(j < ge.nc ? (size_t)est[j] * (ge.ph[j] - 1) + ge.pw[j] : 1); planes[j] = j < ge.nc ? P[j].p : NULL; cplanes[j] = planes[j]; }
+      if (tjEncodeYUVPlanes(hC, rgb, w, 0, h, TJPF_RGB, planes, estr, s, 0) < 0) SFAIL("tjEncodeYUVPlanes failed: %s", tjGetErrorStr2(hC));
+      if (!same_planes(P, est, RE.p, &ge, why, sizeof(why), "tjEncodeYUVPlanes")) { failed = 1; goto next; }
+      if (tj3CompressFromYUV8(fc, RE.p, w, a, h, &jb2, &n2) < 0) SFAIL("setup: reference tj3CompressFromYUV8 failed");
+      if (tjCompressFromYUV(hC, RE.p, w, a, h, s, &jb1, &n1, q, 0) < 0) SFAIL("tjCompressFromYUV failed: %s", tjGetErrorStr2(hC));
+      if (n1 != n2 || memcmp(jb1, jb2, n2)) SFAIL("tjCompressFromYUV != tj3CompressFromYUV8 of a fresh instance (%lu vs %zu bytes)", n1, n2);
+      tj3Free(jb1); jb1 = NULL; n1 = 0;
+      if (tjCompressFromYUVPlanes(hC, cplanes, w, estr, h, s, &jb1, &n1, q, 0) < 0) SFAIL("tjCompressFromYUVPlanes failed: %s", tjGetErrorStr2(hC));
+      if (n1 != n2 || memcmp(jb1, jb2, n2)) SFAIL("tjCompressFromYUVPlanes != tj3CompressFromYUV8 of a fresh instance (%lu vs %zu bytes)", n1, n2);
+    }
+next:
+    if (failed) { size_t l = strlen(why); snprintf(why + l, sizeof(why) - l, " (image %d of the sequence)", k + 1); }
+    cb_free(&RU); cb_free(&RU4); cb_free(&L); cb_free(&RE); cb_free(&D1); cb_free(&D2);
+    for (i = 0; i < 3; i++) cb_free(&P[i]);
+    tj3Free(jpg); tj3Free(jb1); tj3Free(jb2); free(rgb);
+    if (fc) tj3Destroy(fc); if (fd) tj3Destroy(fd);
+  }
+  if (failed) printf("seq FAIL %s ;%s\n", why, trace); else printf("seq ok%s\n", trace);
+out:
+  tjDestroy(hD); tjDestroy(hC);
+}
+
 /* gs yh yv bh bv rh rv: level reported by the TurboJPEG API for a YCbCr JPEG with these sampling factors */
 static void do_gs(char *p)
 {
@@ -588,6 +748,7 @@ int main(void)
     if (!strcmp(cmd, "layenc")) { do_layenc(p); continue; }
     if (!strcmp(cmd, "errs")) { do_errs(p); continue; }
     if (!strcmp(cmd, "gs")) { do_gs(p); continue; }
+    if (!strcmp(cmd, "seq")) { do_seq(p); continue; }
     { char *q = p; while (n < 8) { char *e; long x = strtol(q, &e, 10); if (e == q) break; v[n++] = x; q = e; } }
     if (!strcmp(cmd, "pw") && n == 3) printf("pw %d\n", tj3YUVPlaneWidth((int)v[0], (int)v[1], (int)v[2]));
     else if (!strcmp(cmd, "ph") && n == 3) printf("ph %d\n", tj3YUVPlaneHeight((int)v[0], (int)v[1], (int)v[2]));
